@@ -487,6 +487,25 @@ static void c03Seq(Co &C, Prng &r) {
   for (int k = 0; k < len; k++) {
     uint32_t cur = C.ref.pc;
     if (cur < base || cur >= base + 8192) { if (r.below(4) != 0) break; }
+    if (cur >= base && cur < base + 8188 && !gen[cur - base] && (cur & 3) == 0 && C.ref.oreg == 0 && r.below(25) == 0) {
+      // self-modifying code: the first instruction of this word stores a new word over itself; the following
+      // instructions must be fetched from the new contents (state planted: breg = this word, areg = the new word)
+      uint32_t neww = 0x88u;                       // byte 0 stays STAI 8? no: keep the executing byte as it is
+      unsigned k = (unsigned)r.below(8);
+      uint8_t self = (uint8_t)(0x80 | k);          // STAI k
+      neww = self;
+      for (int l = 1; l < 4; l++) {
+        unsigned o2 = W[r.below(sizeof(W) / sizeof(W[0]))];
+        if (o2 == refisa::OPR || o2 == refisa::STAM || o2 == refisa::STAI || o2 == refisa::LDAI || o2 == refisa::LDBI ||
+            o2 == refisa::LDAM || o2 == refisa::LDBM) o2 = refisa::LDAC;
+        neww |= (uint32_t)((o2 << 4) | r.below(16)) << (8 * l);
+      }
+      C.poke(cur >> 2, (uint32_t)self | (r.u32() & 0xFFFFFF00u));          // old contents differ from the new ones
+      C.setRegs(Regs{cur, neww, (cur >> 2) - k, 0});
+      for (int l = 0; l < 4; l++) gen[cur - base + l] = true;
+      if (!C.step()) break;
+      continue;
+    }
     if (cur >= base && cur < base + 8192 && !gen[cur - base]) {
       bool found = false;
       for (int t = 0; t < 12 && !found; t++) {
